@@ -144,6 +144,7 @@ func (c *wsConn) nextWriter(cb func(io.Writer)) {
 		return
 	}
 
+	verifYield("write.locked", c)
 	cb(wcl)
 
 	if err := wcl.Close(); err != nil {
@@ -159,6 +160,7 @@ func (c *wsConn) sendRequest(req request) error {
 	if debugTrace {
 		log.Debugw("sendRequest", "req", req.Method, "id", req.ID)
 	}
+	verifYield("write.locked", c)
 
 	if err := c.conn.WriteJSON(req); err != nil {
 		return err
@@ -202,6 +204,7 @@ func (c *wsConn) handleOutChans() {
 			}
 
 			registration := val.Interface().(outChanReg)
+			verifYield("chan.register", c)
 
 			caseToID = append(caseToID, registration.chID)
 			cases = append(cases, reflect.SelectCase{
@@ -268,6 +271,7 @@ func (c *wsConn) handleOutChans() {
 		}
 
 		// forward message
+		verifYield("chan.forward", c)
 		rp, err := json.Marshal([]param{{v: reflect.ValueOf(caseToID[chosen-internal])}, {v: val}})
 		if err != nil {
 			log.Errorw("marshaling params for sendRequest failed", "err", err)
@@ -326,6 +330,7 @@ func (c *wsConn) handleCtxAsync(actx context.Context, id interface{}) {
 		return
 	}
 
+	verifYield("cancel.send", c)
 	if err := c.sendRequest(request{
 		Jsonrpc: "2.0",
 		Method:  wsCancel,
@@ -392,6 +397,7 @@ func (c *wsConn) handleChanMessage(frame frame) {
 
 	c.chanHandlersLk.Unlock()
 
+	verifYield("chan.sink", c)
 	hnd.cb(params[1].data, true)
 }
 
@@ -434,6 +440,7 @@ func (c *wsConn) handleResponse(frame frame) {
 		log.Error("client got unknown ID in response")
 		return
 	}
+	verifYield("resp.found", c)
 
 	if req.retCh != nil && frame.Result != nil {
 		// output is channel
@@ -458,6 +465,7 @@ func (c *wsConn) handleResponse(frame frame) {
 		ID:      frame.ID,
 		Error:   frame.Error,
 	}
+	verifYield("resp.delivered", c)
 	c.inflightLk.Lock()
 	delete(c.inflight, frame.ID)
 	c.inflightLk.Unlock()
@@ -505,6 +513,7 @@ func (c *wsConn) handleCall(ctx context.Context, frame frame) {
 		}
 	}
 
+	verifYield("call.dispatch", c)
 	go c.handler.handle(ctx, req, nextWriter, rpcError, done, c.handleChanOut)
 }
 
@@ -553,6 +562,7 @@ func (c *wsConn) closeInFlight() {
 }
 
 func (c *wsConn) closeChans() {
+	verifYield("closechans.begin", c)
 	c.chanHandlersLk.Lock()
 	defer c.chanHandlersLk.Unlock()
 
@@ -600,6 +610,7 @@ func (c *wsConn) setupPings() func() {
 			select {
 			case <-time.After(c.pingInterval):
 				c.writeLk.Lock()
+				verifYield("write.locked", c)
 				if err := c.conn.WriteMessage(websocket.PingMessage, []byte{}); err != nil {
 					log.Errorf("sending ping message: %+v", err)
 				}
@@ -625,6 +636,7 @@ func (c *wsConn) tryReconnect(ctx context.Context) bool {
 	}
 
 	// connection dropped unexpectedly, do our best to recover it
+	verifYield("reconnect.begin", c)
 	c.closeInFlight()
 	c.closeChans()
 	c.incoming = make(chan io.Reader) // listen again for responses
@@ -651,6 +663,7 @@ func (c *wsConn) tryReconnect(ctx context.Context) bool {
 		}
 
 		c.writeLk.Lock()
+		verifYield("write.locked", c)
 		c.conn = conn
 		c.errLk.Lock()
 		c.incomingErr = nil
@@ -673,6 +686,7 @@ func (c *wsConn) readFrame(ctx context.Context, r io.Reader) {
 	// json.NewDecoder(r).Decode would read the whole frame as well, so might as well do it
 	// with ReadAll which should be much faster
 	// use a autoResetReader in case the read takes a long time
+	verifYield("frame.read", c)
 	buf, err := io.ReadAll(c.autoResetReader(r)) // todo buffer pool
 	if err != nil {
 		c.readError <- xerrors.Errorf("reading frame into a buffer: %w", err)
@@ -729,6 +743,7 @@ func (c *wsConn) handleWsConn(ctx context.Context) {
 	c.pongs = make(chan struct{}, 1)
 
 	c.registerCh = make(chan outChanReg)
+	defer verifYield("exit.exiting-closed", c)
 	defer close(c.exiting)
 
 	// ////
@@ -804,6 +819,7 @@ func (c *wsConn) handleWsConn(ctx context.Context) {
 			return
 		case req := <-c.requests:
 			action = fmt.Sprintf("send-request(%s,%v)", req.req.Method, req.req.ID)
+			verifYield("req.accepted", c)
 
 			c.writeLk.Lock()
 			if req.req.ID != nil { // non-notification
@@ -827,6 +843,7 @@ func (c *wsConn) handleWsConn(ctx context.Context) {
 				c.inflightLk.Unlock()
 			}
 			c.writeLk.Unlock()
+			verifYield("inflight.registered", c)
 			serr := c.sendRequest(req.req)
 			if serr != nil {
 				log.Errorf("sendReqest failed (Handle me): %s", serr)
@@ -855,6 +872,7 @@ func (c *wsConn) handleWsConn(ctx context.Context) {
 			}
 
 			c.writeLk.Lock()
+			verifYield("write.locked", c)
 			if err := c.conn.Close(); err != nil {
 				log.Warnw("timed-out websocket close error", "error", err)
 			}
@@ -868,6 +886,7 @@ func (c *wsConn) handleWsConn(ctx context.Context) {
 			continue
 		case <-c.stop:
 			c.writeLk.Lock()
+			verifYield("stop.begin", c)
 			cmsg := websocket.FormatCloseMessage(websocket.CloseNormalClosure, "")
 			if err := c.conn.WriteMessage(websocket.CloseMessage, cmsg); err != nil {
 				log.Warn("failed to write close message: ", err)
